@@ -399,6 +399,10 @@ func (r *RowCache) IndexExists(row model.Model) error {
 		return nil
 	}
 	uuid := field.(string)
+	// report the rows conflicting on any of the schema indexes, not just on
+	// the first one: a caller that can disregard some of them (rows deleted
+	// by a transaction) must still see the others
+	var conflict *ErrIndexExists
 	for _, indexSpec := range r.indexSpecs {
 		if !indexSpec.isSchemaIndex() {
 			// Given the ordered indexSpecs, we can break here if we reach the
@@ -413,14 +417,21 @@ func (r *RowCache) IndexExists(row model.Model) error {
 		vals := r.indexes[index]
 		existing := vals[val]
 		if !existing.empty() && !existing.equals(newUUIDSet(uuid)) {
-			return NewIndexExistsError(
-				r.name,
-				val,
-				string(index),
-				uuid,
-				existing.list(),
-			)
+			if conflict == nil {
+				conflict = NewIndexExistsError(
+					r.name,
+					val,
+					string(index),
+					uuid,
+					existing.list(),
+				)
+			} else {
+				conflict.Existing = append(conflict.Existing, existing.list()...)
+			}
 		}
+	}
+	if conflict != nil {
+		return conflict
 	}
 	return nil
 }
